@@ -18,3 +18,16 @@ package sortindex
 //@     assert [offset-table-sized-by-a-count-the-file-can-hold] arg1 >= 0 && uint64(arg1) <= uint64(fileStat.Size()) / 8
 //@   ensures [a-read-header-comes-with-its-table] implies(result1 == nil, result0 != nil)
 //@ end
+
+// C18: the resume checkpoint of a sorted query is kept by the caller between
+// pages, the table length comes from the (possibly damaged) file: the table is
+// indexed with the checkpoint's line only when that line lies inside the table
+// that was just read.
+//@ func ReadSortIndex
+//@   props C18
+//@   assumecalleerequires
+//@   site index metadata.valueOffsets[fromCheckpoint.lineNum] #1:
+//@     assert [the-offset-table-is-indexed-only-inside-its-length] fromCheckpoint != nil && fromCheckpoint.lineNum >= 0 && fromCheckpoint.lineNum < int64(len(metadata.valueOffsets))
+//@   site index metadata.valueOffsets[len(metadata.valueOffsets)-1] #1:
+//@     assert [the-last-line-exists] len(metadata.valueOffsets) >= 1
+//@ end
